@@ -81,6 +81,37 @@ theorem concat_compositional {e : Eng} {w : World} {i1 i2 i12 : Nat} {circ1 circ
       rw [← ha.1, ← hb.1, ← ha.2.2, ← hb.2.2, ht]
       exact ⟨rfl, hm, hp⟩
 
+/- **the two ways of running also fail together**, full statement: on every back end `run [p1, p2]`
+   succeeds iff `run [p1 ++ p2]` succeeds.  Proved below for the Fock and Gaussian engines; on the bosonic
+   engine the *model* does not cover the initialisation pass (`New` and non-Gaussian preparations in the
+   first program are `unmodelled`), and the code itself refuses a non-Gaussian preparation in a later
+   program that it accepts in the concatenation (known finding `bosonic-nongaussian-later-segment`,
+   `bosonic_later_preparation_counterexample`). -/
+
+/-- **error coincidence** (Fock/Gaussian): under the hypotheses of `concat_compositional`, if moreover `p2`
+can follow `p1` and every bound name is a free parameter of all three programs, the two-segment run
+succeeds exactly when the concatenated program does (which error is reported may differ: the
+segmented run notices a problem of `p2` only after `p1` has been executed). -/
+theorem concat_success_iff_partial {e : Eng} {w : World} {i1 i2 i12 : Nat} {circ1 circ2 : List Cmd}
+    (hbk : e.bk ≠ .bosonic)
+    (hc : (progs i12).circuit = (progs i1).circuit ++ (progs i2).circuit)
+    (hn : (progs i12).initN = (progs i1).initN)
+    (hir : (progs i12).initRegs = (progs i1).initRegs)
+    (hr : (progs i12).regs = (progs i2).regs)
+    (hfol : (progs i2).initRegs = (progs i1).regs)
+    (hne : i2 ≠ i1)
+    (hv : ∀ m ∈ idxs (progs i1).regs, w.vals i12 m = w.vals i1 m)
+    (hf1 : w.free i1 = w.free i12) (hf2 : w.free i2 = w.free i12)
+    (hargs : ∀ kv ∈ args, kv.1 ∈ (progs i1).freeNames ∧ kv.1 ∈ (progs i2).freeNames ∧ kv.1 ∈ (progs i12).freeNames)
+    (hd1 : decompList compileFuel cp (progs i1).circuit = .ok circ1)
+    (hd2 : decompList compileFuel cp (progs i2).circuit = .ok circ2)
+    (hsub : ∀ m ∈ idxs (progs i1).regs, m ∈ idxs (progs i2).regs)
+    (ho1 : ∀ m ∈ openDeps circ1, m ∈ idxs (progs i1).regs)
+    (ho2 : ∀ m ∈ openDeps circ2, m ∈ idxs (progs i1).regs) :
+    (∃ r, run cp progs outc args e w [i1, i2] = .ok r) ↔ (∃ r, run cp progs outc args e w [i12] = .ok r) := by
+  rw [run_ok_iff, run_ok_iff]
+  exact concat_ok_iff hbk hc hn hir hr hfol hne hv hf1 hf2 hargs hd1 hd2 hsub ho1 ho2
+
 /-- **the hand-over delivers the latest value of each subsystem**: after a segment the engine holds, for
 every index of the program's register, the value its RegRef holds, and the next program's RegRefs
 receive exactly these (subsystems the engine knows nothing about are reset to `None`). -/
@@ -217,6 +248,22 @@ example :
         fun r => r.2.2.map (·.name)) = some ["begin_circuit", "begin_circuit", "displacement", "rotation", "state"] := by
   decide +kernel
 
+def bosPrepProgs : Nat → Prog
+  | 0 => { initN := 3, initRegs := regs3, regs := regs3, circuit :=
+      [{ cls := "Dgate", pars := [.num ⟨1/4, 0⟩, .num {}], regs := [2] }] }
+  | _ => { initN := 3, initRegs := regs3, regs := regs3, circuit :=
+      [{ cls := "Fock", kind := .plain, pars := [.num ⟨1, 0⟩], regs := [1] }] }
+
+/-- bosonic engine: a non-Gaussian preparation in a program that follows another one is refused
+(`NotImplementedError`), and the gaussian-only first program alone runs (known finding
+`bosonic-nongaussian-later-segment`: the same preparation is accepted in a first/concatenated program) -/
+theorem bosonic_later_preparation_counterexample :
+    (run { gaussianCp with prims := "Fock" :: gaussianCp.prims } bosPrepProgs (fun _ => []) [] (fresh .bosonic [])
+        emptyWorld [0, 1]).toOption.isNone ∧
+    (run { gaussianCp with prims := "Fock" :: gaussianCp.prims } bosPrepProgs (fun _ => []) [] (fresh .bosonic [])
+        emptyWorld [0]).toOption.isSome := by
+  decide +kernel
+
 /-! ### non-vacuity -/
 
 /-- three modes, a daggered decomposed two-mode gate on modes (2,0), a measurement with feed-forward
@@ -252,6 +299,15 @@ example : trace (run gaussianCp exProgs exOutc exArgs (fresh .gaussian []) empty
 
 /-- reset: after a run on three modes the engine has a previous register, samples and a run list;
 reset clears them -/
+/-- error coincidence: the example programs satisfy the extra hypotheses of `concat_success_iff_partial`
+(can follow, bound names known everywhere, open dependencies inside the register), and a session in which
+both ways fail together: binding an unknown name -/
+example : (exProgs 1).initRegs = (exProgs 0).regs ∧
+    (∀ kv ∈ exArgs, kv.1 ∈ (exProgs 0).freeNames ∧ kv.1 ∈ (exProgs 1).freeNames ∧ kv.1 ∈ (exProgs 2).freeNames) ∧
+    (trace (run gaussianCp exProgs exOutc [("b", 1)] (fresh .gaussian []) emptyWorld [0, 1])).isNone ∧
+    (trace (run gaussianCp exProgs exOutc [("b", 1)] (fresh .gaussian []) emptyWorld [2])).isNone := by
+  decide +kernel
+
 def afterRun : Option (Eng × World) :=
   (run gaussianCp exProgs exOutc exArgs (fresh .gaussian [("cutoff_dim", 5)]) emptyWorld [2]).toOption.map
     fun r => (r.1, r.2.1)
